@@ -7,10 +7,10 @@ import "math"
 type logical func(iterator, string, interface{}, interface{}) bool
 
 var logicalFuncs = [][]logical{
-	{cmpBooleanBoolean, nil, nil, nil},
-	{nil, cmpNumericNumeric, cmpNumericString, cmpNumericNodeSet},
-	{nil, cmpStringNumeric, cmpStringString, cmpStringNodeSet},
-	{nil, cmpNodeSetNumeric, cmpNodeSetString, cmpNodeSetNodeSet},
+	{cmpBooleanBoolean, cmpBooleanAny, cmpBooleanAny, cmpBooleanAny},
+	{cmpAnyBoolean, cmpNumericNumeric, cmpNumericString, cmpNumericNodeSet},
+	{cmpAnyBoolean, cmpStringNumeric, cmpStringString, cmpStringNodeSet},
+	{cmpAnyBoolean, cmpNodeSetNumeric, cmpNodeSetString, cmpNodeSetNodeSet},
 }
 
 // number vs number
@@ -57,8 +57,22 @@ func cmpBooleanBooleanF(op string, a, b bool) bool {
 		return a || b
 	case "and":
 		return a && b
+	case "=":
+		return a == b
+	case "!=":
+		return a != b
+	case "<", "<=", ">", ">=":
+		// relational operators compare the booleans as the numbers 0 and 1
+		return cmpNumberNumberF(op, boolToNumber(a), boolToNumber(b))
 	}
 	return false
+}
+
+func boolToNumber(b bool) float64 {
+	if b {
+		return 1
+	}
+	return 0
 }
 
 func cmpNumericNumeric(t iterator, op string, m, n interface{}) bool {
@@ -181,6 +195,15 @@ func cmpBooleanBoolean(t iterator, op string, m, n interface{}) bool {
 	a := m.(bool)
 	b := n.(bool)
 	return cmpBooleanBooleanF(op, a, b)
+}
+
+// boolean vs number, string or node-set: the other operand is converted with boolean()
+func cmpBooleanAny(t iterator, op string, m, n interface{}) bool {
+	return cmpBooleanBooleanF(op, m.(bool), asBool(t, n))
+}
+
+func cmpAnyBoolean(t iterator, op string, m, n interface{}) bool {
+	return cmpBooleanBooleanF(op, asBool(t, m), n.(bool))
 }
 
 // eqFunc is an `=` operator.
